@@ -711,7 +711,7 @@ func sweepBases() []baseBlock {
 
 func TestC07(t *testing.T) {
 	rec := evi.New(t, "C07", evi.Exploration,
-		"blocks = the real blocks of every era plus blocks generated from them (1..258 transactions drawn from the era's real transactions, output lists resized to 1..26, synthesised datums / redeemers (array and map form) / native and Plutus scripts / auxiliary data / invalid lists; Dijkstra from the cardano-ledger Dijkstra tx and Conway txs); each is re-encoded with a style plan over the containers of the layout (block, header, bodies/witnesses/aux/invalid, Byron body/payload/pair/tx, Dijkstra body/txs/tx, body map and keys, outputs array, outputs, witness map and keys, script/datum/redeemer collections and their items, tag-258 set wrappers, any other node) with non-minimal 1/2/4/8-byte heads or indefinite length, the header commitment is recomputed, and only re-encodings the era decoder accepts WITH body validation are judged; oracle = xcbor's own byte range of each component in the re-encoded bytes vs every range reported by NewBlockFromCborWithOffsets and ExtractTransactionOffsets (+ Extract*Cbor helpers); non-trivial = accepted, >=1 head differs from the original and >=1 range was reported; distinct by (block description, plan)")
+		"blocks = the real blocks of every era plus blocks generated from them (1..258 transactions drawn from the era's real transactions, output lists resized to 1..26, synthesised datums / redeemers (array and map form) / native and Plutus scripts / auxiliary data / invalid lists; Dijkstra from the cardano-ledger Dijkstra tx and Conway txs); each is re-encoded with a style plan over the containers of the layout (block, header, bodies/witnesses/aux/invalid, Byron body/payload/pair/tx, Dijkstra body/txs/tx, body map and keys, outputs array, outputs, witness map and keys, script/datum/redeemer collections and their items, tag-258 set wrappers, any other node) with non-minimal 1/2/4/8-byte heads or indefinite length, the header commitment is recomputed, and only re-encodings the era decoder accepts WITH body validation are judged; oracle = xcbor's own byte range of each component in the re-encoded bytes vs every range reported by NewBlockFromCborWithOffsets and ExtractTransactionOffsets (+ Extract*Cbor helpers); special values: 1/23/24/255/256/257 transactions, a body / witness set / aux item of exactly 23, 24, 255, 256, 65535, 65536 bytes (or > 64 KiB by repetition), the EBB, reversed map key order, duplicated redeemer / aux keys, aux entries keyed index+256 / +65536 / +2^32 / 65535 / 2^32-1, unsorted / duplicate / out-of-range invalid lists; purity: every call is made on one shared input buffer that is overwritten after the call, tables returned earlier must not change, a repeated call gives the same table, a failed (truncated / garbled) call returns no table and does not influence the next one, and every real block plus same-header and same-body siblings give the same table forwards, backwards and interleaved across eras; non-trivial = accepted, >=1 head differs from the original and >=1 range was reported; distinct by (block description, plan)")
 	defer rec.Finish()
 	rec.Assume(
 		"xcbor (independent RFC 8949 parser, round-trip tested) defines the byte range of a component",
